@@ -1,4 +1,5 @@
 import GwcsModel.Basic
+import GwcsModel.Remap
 /-!
 # WCS builders (C20)
 
@@ -47,6 +48,16 @@ def fitsLinearND (n : Nat) (crpix cdelt : Nat → Rat) (pc : Nat → Nat → Rat
 def skyLin (crpix cdelt : Nat → Rat) (pc : Nat → Nat → Rat) (i j : Nat) : Lin :=
   let b := skyBlock pc i j
   ⟨crpix i, crpix j, b.1, b.2.1, b.2.2.1, b.2.2.2, cdelt i, cdelt j, false⟩
+
+/-! ## the linear matrix as `read_wcs_from_header` assembles it -/
+
+/-- any `CDi_j` card makes it the CD form -/
+def hasCD (cd : List Remap.Card) : Bool := !cd.isEmpty
+
+/-- element (i, j) (1-based) of the matrix read from a header holding the cards `cd` and `pc`: with any CD card present the CD cards
+count and a missing one is zero; otherwise the PC cards count and a missing one is the unit-matrix element -/
+def headerMatrix (cd pc : List Remap.Card) (i j : Nat) : Rat :=
+  if hasCD cd then Remap.readM .CD cd i j else Remap.readM .PC pc i j
 
 /-- FITS Paper II default: LONPOLE = phi0 when the fiducial latitude is at least theta0, else phi0 + 180 -/
 def lonpoleDefault (phi0 theta0 lat : Rat) : Rat := if lat ≥ theta0 then phi0 else phi0 + 180
